@@ -34,9 +34,10 @@ package seccomp
 
 // Representation invariant of a Program: the recorded jumps are exactly the conditional jumps of the program,
 // in program order; label positions lie inside the program or at its end.
+//@ macro riK(p) = forall(x, 0, len(p.instructions), isRet(p.instructions[x]) || istype(p.instructions[x], bpf.LoadAbsolute) || istype(p.instructions[x], bpf.JumpIf), trig(p.instructions[x]))
 //@ macro riJ(p) = forall(k, 0, len(p.jumps), 0 <= p.jumps[k].index && p.jumps[k].index < len(p.instructions) && istype(p.instructions[p.jumps[k].index], bpf.JumpIf)) && forall(x, 0, len(p.instructions), istype(p.instructions[x], bpf.JumpIf) ==> unbox(p.instructions[x], bpf.JumpIf).SkipTrue == 0 && unbox(p.instructions[x], bpf.JumpIf).SkipFalse == 0, trig(p.instructions[x])) && forall(a, 0, len(p.jumps), forall(b, a + 1, len(p.jumps), p.jumps[a].index < p.jumps[b].index)) && jumpsComplete(p.instructions, p.jumps)
 //@ macro riL(p) = nonnil(p.labels) && forallk(l, p.labels, forall(m, 0, len(p.labels[l]), 0 <= p.labels[l][m] && p.labels[l][m] <= len(p.instructions)))
-//@ macro ri(p) = riJ(p) && riL(p)
+//@ macro ri(p) = riK(p) && riJ(p) && riL(p)
 
 // jump k of the label-level program p0 is resolved in the instruction list R: same test, and each branch continues
 // at the (moved) position of its label, or at a bridge to it
@@ -433,14 +434,88 @@ package seccomp
 //@ macro plainOK(p0, R) = forall(x, 0, len(p0.instructions), !istype(p0.instructions[x], bpf.JumpIf) ==> R[ghost.apos[x]] == p0.instructions[x] && ghost.apos[x + 1] == ghost.apos[x] + 1, trig(p0.instructions[x]))
 //@ macro sim(p0, R) = posMono(ghost.apos) && ghost.apos[0] == 0 && ghost.apos[len(p0.instructions)] == len(R) && plainOK(p0, R) && forall(k, 0, len(p0.jumps), resKind(p0, R, k)) && forall(k, 0, len(p0.jumps), resMT(p0, k)) && forall(k, 0, len(p0.jumps), resMF(p0, k)) && forall(k, 0, len(p0.jumps), resBT(p0, R, k)) && forall(k, 0, len(p0.jumps), resBF(p0, R, k))
 
-// MT-R (meta-theory, DESIGN.md 3.3): a resolved program that simulates the label-level program p0 (sim) returns what
-// the single-pass interpretation G of p0 returns. Proved by induction on the execution (not by the SMT solver): trusted.
-// Further hypotheses of the theorem that are not checked: p0.G is the interpretation of exactly the structure
-// (instructions, jumps, labels) of p0 (the ghost statements of the builder primitives read what the code appended),
-// and every label is set at most once (every caller in the package takes a label from NewLabel and sets it once).
-//@ lemma MTR(p0 Program, R []bpf.Instruction)
+// ---- S-lab: the label-level program run on the structure itself (spec/46_slab.smt2), and the proof by induction
+// that a resolved program that simulates it returns the same outcome from every position.
+// one unfolding of runL at an explicit position (runL is opaque where these are used)
+//@ lemma runLStep(p0 Program, x int, A uint32)
+//@   ensures x == len(p0.instructions) && x >= 0 ==> runL(p0, x, A) == Fall(A)
+//@   ensures 0 <= x && x < len(p0.instructions) && isRet(p0.instructions[x]) ==> runL(p0, x, A) == Ret(unbox(p0.instructions[x], bpf.RetConstant).Val)
+//@   ensures 0 <= x && x < len(p0.instructions) && istype(p0.instructions[x], bpf.LoadAbsolute) ==> runL(p0, x, A) == runL(p0, x + 1, word(ev, unbox(p0.instructions[x], bpf.LoadAbsolute).Off))
+//@   ensures 0 <= x && x < len(p0.instructions) && istype(p0.instructions[x], bpf.JumpIf) && jidx(p0.jumps, x, 0) < len(p0.jumps) && destOf(p0.labels, ite(jtest(unbox(p0.instructions[x], bpf.JumpIf).Cond, A, unbox(p0.instructions[x], bpf.JumpIf).Val), p0.jumps[jidx(p0.jumps, x, 0)].trueLabel, p0.jumps[jidx(p0.jumps, x, 0)].falseLabel), x) > x ==> runL(p0, x, A) == runL(p0, destOf(p0.labels, ite(jtest(unbox(p0.instructions[x], bpf.JumpIf).Cond, A, unbox(p0.instructions[x], bpf.JumpIf).Val), p0.jumps[jidx(p0.jumps, x, 0)].trueLabel, p0.jumps[jidx(p0.jumps, x, 0)].falseLabel), x), A)
+// the search finds the recorded jump (indices are strictly increasing, hence unique)
+//@ lemma jidxAll(J []JumpIf, x int, k0 int)
+//@   requires 0 <= k0 && k0 <= len(J) && forall(a, 0, len(J), forall(b, a + 1, len(J), J[a].index < J[b].index))
+//@   decreases len(J) - k0
+//@   use jidxAll(J, x, k0 + 1) when k0 < len(J)
+//@   ensures forall(kw, k0, len(J), J[kw].index == x ==> jidx(J, x, k0) == kw)
+// the first position above x is what the search from j returns
+//@ lemma fiaAt(s []Index, x int, j int, m int)
+//@   requires 0 <= j && j <= m && m < len(s) && s[m] > x && forall(t, j, m, s[t] <= x)
+//@   decreases m - j
+//@   use fiaAt(s, x, j + 1, m) when j < m
+//@   ensures firstIdxAbove(s, x, j) == m
+
+//@ macro jk(p0, x) = jidx(p0.jumps, x, 0)
+//@ macro dT(p0, x) = p0.labels[p0.jumps[jk(p0, x)].trueLabel][ghost.mt[jk(p0, x)]]
+//@ macro dF(p0, x) = p0.labels[p0.jumps[jk(p0, x)].falseLabel][ghost.mf[jk(p0, x)]]
+//@ macro cT(R, x) = ghost.apos[x] + 1 + unbox(R[ghost.apos[x]], bpf.JumpIf).SkipTrue
+//@ macro cF(R, x) = ghost.apos[x] + 1 + unbox(R[ghost.apos[x]], bpf.JumpIf).SkipFalse
+//@ macro atJump(p0, x) = x < len(p0.instructions) && istype(p0.instructions[x], bpf.JumpIf)
+// one case each of the simulation theorem (the induction hypotheses are explicit premises), then the induction
+//@ lemma simPlain(p0 Program, R []bpf.Instruction, x int, A uint32)
+//@   requires ri(p0) && sim(p0, R) && 0 <= x && x <= len(p0.instructions) && !atJump(p0, x)
+//@   requires x < len(p0.instructions) && istype(p0.instructions[x], bpf.LoadAbsolute) ==> run(R, ghost.apos[x + 1], word(ev, unbox(p0.instructions[x], bpf.LoadAbsolute).Off)) == runL(p0, x + 1, word(ev, unbox(p0.instructions[x], bpf.LoadAbsolute).Off))
+//@   opaque run runL posMono jumpsComplete
+//@   use runLStep(p0, x, A)
+//@   use runStep(R, ghost.apos[x], A)
+//@   use monoPivot(0)
+//@   use monoPivot(len(p0.instructions))
+//@   ensures run(R, ghost.apos[x], A) == runL(p0, x, A)
+// a branch that continues at c behaves like a jump to t
+//@ lemma branchRun(R []bpf.Instruction, c int, t int, A uint32)
+//@   requires branchOK(R, c, t)
+//@   opaque run
+//@   use runStep(R, c, A)
+//@   use runStep(R, t, A)
+//@   ensures run(R, c, A) == run(R, t, A)
+//@ lemma simJump(p0 Program, R []bpf.Instruction, x int, A uint32)
+//@   requires ri(p0) && sim(p0, R) && 0 <= x && atJump(p0, x)
+//@   requires @ihT run(R, ghost.apos[dT(p0, x)], A) == runL(p0, dT(p0, x), A)
+//@   requires @ihF run(R, ghost.apos[dF(p0, x)], A) == runL(p0, dF(p0, x), A)
+//@   opaque run runL posMono
+//@   use runLStep(p0, x, A)
+//@   use runStep(R, ghost.apos[x], A)
+//@   use jidxAll(p0.jumps, x, 0)
+//@   use fiaAt(p0.labels[p0.jumps[jk(p0, x)].trueLabel], x, 0, ghost.mt[jk(p0, x)])
+//@   use fiaAt(p0.labels[p0.jumps[jk(p0, x)].falseLabel], x, 0, ghost.mf[jk(p0, x)])
+//@   use monoPivot(0)
+//@   use monoPivot(len(p0.instructions))
+//@   use branchRun(R, cT(R, x), ghost.apos[dT(p0, x)], A)
+//@   use branchRun(R, cF(R, x), ghost.apos[dF(p0, x)], A)
+//@   ensures run(R, ghost.apos[x], A) == runL(p0, x, A)
+// THE simulation theorem of C06, by induction on the distance to the end of the label-level program: from the moved
+// position of x the resolved program returns what the label-level program returns from x.
+//@ lemma simInd(p0 Program, R []bpf.Instruction, x int, A uint32)
+//@   requires ri(p0) && sim(p0, R) && 0 <= x && x <= len(p0.instructions)
+//@   decreases len(p0.instructions) - x
+//@   opaque run runL posMono
+//@   use jidxAll(p0.jumps, x, 0) when atJump(p0, x)
+//@   use simInd(p0, R, x + 1, word(ev, unbox(p0.instructions[x], bpf.LoadAbsolute).Off)) when x < len(p0.instructions) && istype(p0.instructions[x], bpf.LoadAbsolute)
+//@   use simInd(p0, R, dT(p0, x), A) when atJump(p0, x)
+//@   use simInd(p0, R, dF(p0, x), A) when atJump(p0, x)
+//@   use simPlain(p0, R, x, A) when !atJump(p0, x)
+//@   use simJump(p0, R, x, A) when atJump(p0, x)
+//@   ensures run(R, ghost.apos[x], A) == runL(p0, x, A)
+
+// MT-fwd (meta-theory, DESIGN.md 3.3): the single-pass interpretation G that the builder primitives maintain equals the
+// label-level program run directly on the structure (S-lab). Trusted: a statement about label-level programs only
+// (no resolution, no bridges); paper proof by induction on the emission history. Hypotheses that are not checked:
+// p0.G is the interpretation of exactly this structure (the primitives' ghost statements read back what the code
+// appended), every label is set at most once and only jumped to from before it (the property's own domain:
+// "forward jumps only, each label placed once"; a backward reference makes Program.Assemble fail).
+//@ lemma MTfwd(p0 Program)
 //@   trusted
-//@   ensures ri(p0) && sim(p0, R) ==> run(R, 0, A0) == outG(p0.G)
+//@   ensures ri(p0) ==> outG(p0.G) == runL(p0, 0, A0)
 
 // Facts about strictly increasing position maps; in Program.Assemble posMono itself is opaque and these are used at
 // explicit pivots (the definition quantifies over pairs, which is quadratic for the solver).
@@ -458,10 +533,11 @@ package seccomp
 //@   requires @ri ri(p)
 //@   modifies p, ghost.apos, ghost.mt, ghost.mf, ghost.wm
 //@   ensures @err result1 != nil ==> len(result0) == 0
+//@   ensures @lab result1 == nil ==> run(result0, 0, A0) == runL(old(*p), 0, A0)
 //@   ensures @sem result1 == nil ==> run(result0, 0, A0) == outG(old(p.G))
 //@   ensures @closed result1 == nil && ok(old(p)) ==> closed(result0) && retsInSet(result0, old(p.R))
 //@   ensures @len result1 == nil ==> len(result0) >= len(old(p.instructions))
-//@   opaque posMono jumpsComplete
+//@   opaque posMono jumpsComplete runL
 //@   opaque closed retsInSet except closed
 //@   ghost ghost.apos = idArr at entry
 //@   use monoId() at entry
@@ -506,7 +582,8 @@ package seccomp
 //@   ghost ghost.wm = ghost.mt[i] at before call Program.insertBridge#2
 //@   ghost ghost.wm = ghost.mt[i] at before call Program.insertBridge#3
 //@   ghost ghost.wm = ghost.mf[i] at before call Program.insertBridge#4
-//@   use MTR(old(*p), p.instructions) at after loop 1
+//@   use simInd(old(*p), p.instructions, 0, A0) at after loop 1
+//@   use MTfwd(old(*p)) at after loop 1
 
 // MT-3 (meta-theory, DESIGN.md 3.3): a closed block embedded in a program behaves like the block run on its own,
 // then continues behind it. Proved by induction on the execution (not by the SMT solver): trusted.
